@@ -380,3 +380,41 @@ Lemma repeat_notes_In : forall s sd n (e : note),
   In e (placed s_notes note_t (repeat (s, Some sd) n) 0) <->
   exists k e0 off, (k < n)%nat /\ In e0 (s_notes s) /\ off = Z.of_nat k * sd /\ e = note_t (fun t => t + off) e0.
 Proof. intros. apply placed_repeat_In. Qed.
+
+(** The notes of repeat_sequence_to_duration, in one statement: exactly the
+    notes of copies k = 0 .. n-1 (copy k moved by k * sd) that start before d,
+    with their ends cut at d. *)
+Lemma repeat_result_notes : forall s d osd r,
+  is_quantized s = false -> 0 < s_total s <= eff_dur s osd -> 0 < d ->
+  repeat_to_duration s d osd = Ok r ->
+  let sd := eff_dur s osd in
+  let n := Z.to_nat (ceil_div d sd) in
+  forall n', In n' (s_notes r) <->
+    exists k n0, (k < n)%nat /\ In n0 (s_notes s) /\ 0 <= n_start n0 + Z.of_nat k * sd < d /\
+      n' = note_with_times n0 (n_start n0 + Z.of_nat k * sd) (Z.min (n_end n0 + Z.of_nat k * sd) d).
+Proof.
+  intros s d osd r Hq Ht Hd Hr sd n n'.
+  destruct (repeat_spec s d osd Hq Ht Hd) as (_ & _ & r' & Hr' & Hn & _).
+  rewrite Hr in Hr'. inversion Hr'; subst r'. rewrite Hn. fold sd. fold n.
+  rewrite window_notes_In. split.
+  - intros (m & Hm & Hrange & ->). apply repeat_notes_In in Hm.
+    destruct Hm as (k & e0 & off & Hk & He0 & -> & ->).
+    exists k, e0. destruct e0; unfold note_t, note_with_times in *; cbn in *. repeat split; auto; lia.
+  - intros (k & n0 & Hk & Hn0 & Hrange & ->).
+    exists (note_t (fun t => t + Z.of_nat k * sd) n0). split.
+    + apply repeat_notes_In. exists k, n0, (Z.of_nat k * sd). repeat split; auto.
+    + destruct n0; unfold note_t, note_with_times in *; cbn in *. repeat split; auto; lia.
+Qed.
+
+(** Shifting twice is shifting by the sum. *)
+Lemma shift_shift : forall a b s r, shift a s = Ok r -> 0 < b -> shift b r = shift (a + b) s.
+Proof.
+  intros a b s r H Hb. unfold shift in H.
+  destruct (a <=? 0) eqn:Ea; [discriminate|]. destruct (is_quantized s) eqn:Q; [discriminate|].
+  inversion H; subst r; clear H. unfold shift at 1 2.
+  destruct (b <=? 0) eqn:Eb; [lia|]. destruct (a + b <=? 0) eqn:Eab; [lia|].
+  unfold is_quantized at 1. cbn [s_spq s_sps]. fold (is_quantized s). rewrite Q.
+  cbn [s_notes s_tempos s_tsigs s_ksigs s_texts s_ccs s_bends s_sects s_total s_qsteps s_spq s_sps s_tpq s_rest].
+  rewrite !map_map. f_equal. f_equal; try lia; apply map_ext; intros [];
+    unfold note_t, note_with_times, tempo_t, tsig_t, ksig_t, text_t, cc_t, bend_t, sect_t; cbn; f_equal; lia.
+Qed.
